@@ -1645,7 +1645,7 @@ impl PartialEq<BytesMut> for Vec<u8> {
 
 impl PartialOrd<BytesMut> for Vec<u8> {
     fn partial_cmp(&self, other: &BytesMut) -> Option<cmp::Ordering> {
-        other.partial_cmp(self)
+        <[u8] as PartialOrd<[u8]>>::partial_cmp(self, other)
     }
 }
 
@@ -1711,7 +1711,7 @@ impl PartialEq<BytesMut> for &str {
 
 impl PartialOrd<BytesMut> for &str {
     fn partial_cmp(&self, other: &BytesMut) -> Option<cmp::Ordering> {
-        other.partial_cmp(self)
+        <[u8] as PartialOrd<[u8]>>::partial_cmp(self.as_bytes(), other)
     }
 }
 
